@@ -92,13 +92,12 @@ def get_total_usages(req):
     """
     try:
         project_id = req.GET.get('project_id')
-        user_id = req.GET.get('user_id')
-        consumer_type = req.GET.get('consumer_type')
-    except UnicodeDecodeError as exc:
+    except UnicodeDecodeError:
         # webob decodes the query string lazily; bytes that are not UTF-8
-        # are a client error (see util.validate_query_params).
-        raise webob.exc.HTTPBadRequest(
-            'Invalid query string parameters: %(exc)s' % {'exc': exc})
+        # name no project. The policy check comes first, as on every other
+        # route; util.validate_query_params below answers 400 to callers who
+        # pass it.
+        project_id = None
 
     context = req.environ['placement.context']
     context.can(
@@ -111,6 +110,8 @@ def get_total_usages(req):
     if show_consumer_type:
         want_schema = schema.GET_USAGES_SCHEMA_V1_38
     util.validate_query_params(req, want_schema)
+    user_id = req.GET.get('user_id')
+    consumer_type = req.GET.get('consumer_type')
 
     if show_consumer_type:
         usages = usage_obj.get_by_consumer_type(
